@@ -455,6 +455,10 @@ class BaseParser:
         for key, value in data.items():
             key = str(key)
             field = self.get_field(key)
+            if field and excluded_keys and (field.attname if as_attname else field.name) in excluded_keys:
+                # an excluded field (a parameter already given by position) takes no input by name:
+                # its key is handled like any other additional key (as in the field-first strategy)
+                field = None
             if not field:
                 add_value = self.parse_addition(key, value, context=context)
                 if not unprovided(add_value):
@@ -476,9 +480,6 @@ class BaseParser:
                     if provided[name] != value:
                         context.handle_error(exc.AliasConflictError(item=name, value=value))
                     continue
-
-            if excluded_keys and name in excluded_keys:
-                continue
 
             provided[name] = value
             parsed = field.parse_value(value, context=context)
